@@ -1,4 +1,4 @@
-(** C43 — the state invariant of the DBRP mapping service and its preservation by every operation (Create, Update of a physical mapping, Delete of a physical or virtual mapping, DeleteBucket). *)
+(** C43 — the state invariant of the DBRP mapping service and its preservation by every operation (Create, Update, Delete of a physical or virtual mapping, DeleteBucket). *)
 From Verif Require Import Base.Prelude Model.C43 Proofs.C43_base.
 Local Open Scope N_scope.
 
@@ -202,11 +202,6 @@ Proof.
       destruct D as [r' [L' _]]. congruence.
 Qed.
 
-(** operations that do not target a virtual mapping with Update: every Update id is a
-    mapping id (>= base), never a bucket id *)
-Definition legal (base : N) (o : op) : Prop :=
-  match o with Update _ id _ _ _ => base <= id | _ => True end.
-
 Lemma Inv_with_next base st n : Inv base st -> next st <= n -> Inv base (with_next st n).
 Proof.
   intros I H. constructor; cbn; try apply I.
@@ -216,17 +211,18 @@ Qed.
 
 (** ---- Update ---- *)
 Lemma update_inv base st o id rp def virt :
-  Inv base st -> base <= id -> Inv base (fst (update st o id rp def virt)).
+  Inv base st -> Inv base (fst (update st o id rp def virt)).
 Proof.
-  intros I Hid. unfold update.
+  intros I. unfold update.
   destruct (negb (name_ok rp)); [exact I|].
   destruct (find_by_id st o id) as [old|] eqn:F; [|exact I].
-  apply find_by_id_cases in F as [[r [L [Ho Hold]]] | [b [Fb _]]].
-  2:{ rewrite (find_bucket_none_ge _ _ _ I Hid) in Fb. discriminate. }
-  subst old. cbn [m_org m_db m_bkt m_def rec2m].
+  apply find_by_id_cases in F as [[r [L [Ho Hold]]] | [b [Fb Hold]]]; subst old.
+  2:{ cbn [b2m m_virt fst]. exact I. }
+  cbn [m_org m_db m_bkt m_def m_virt rec2m].
+  destruct (r_virt r); [exact I|].
   destruct (negb (unique_ok st (r_org r) (r_db r) rp id)) eqn:U; [exact I|].
   apply negb_false_iff in U. pose proof (unique_ok_true _ _ _ _ _ U) as Uq.
-  set (r' := mkrec (r_org r) (r_db r) rp (r_bkt r) virt).
+  set (r' := mkrec (r_org r) (r_db r) rp (r_bkt r) false).
   assert (Hhas : forall o' d' id', has (put id r' (src st)) o' d' id' <-> has (src st) o' d' id').
   { intros o' d' id'. unfold has. rewrite lookup_put. destruct (id' =? id) eqn:E.
     - apply N.eqb_eq in E. subst id'. split.
@@ -334,11 +330,11 @@ Proof.
   apply fold_delete_inv. exact I1.
 Qed.
 
-Lemma step_inv base st o : Inv base st -> legal base o -> Inv base (fst (step st o)).
+Lemma step_inv base st o : Inv base st -> Inv base (fst (step st o)).
 Proof.
-  intros I Hl. destruct o; cbn [step].
+  intros I. destruct o; cbn [step].
   - apply create_inv; exact I.
-  - apply update_inv; [exact I | exact Hl].
+  - apply update_inv; exact I.
   - apply delete_inv; exact I.
   - apply del_bucket_inv; exact I.
 Qed.
@@ -368,12 +364,11 @@ Proof.
 Qed.
 
 Lemma fold_inv base ops : forall st,
-  Inv base st -> Forall (legal base) ops -> Inv base (fold_left (fun s o => fst (step s o)) ops st).
+  Inv base st -> Inv base (fold_left (fun s o => fst (step s o)) ops st).
 Proof.
-  induction ops as [|o ops IH]; intros st I Hl; cbn; [exact I|].
-  inversion Hl; subst. apply IH; [|assumption]. apply step_inv; assumption.
+  induction ops as [|o ops IH]; intros st I; cbn; [exact I|].
+  apply IH. apply step_inv; assumption.
 Qed.
 
-Lemma run_inv bk base ops :
-  wf_bk bk base -> Forall (legal base) ops -> Inv base (run bk base ops).
-Proof. intros W Hl. apply fold_inv; [apply init_inv; exact W | exact Hl]. Qed.
+Lemma run_inv bk base ops : wf_bk bk base -> Inv base (run bk base ops).
+Proof. intros W. apply fold_inv. apply init_inv; exact W. Qed.
